@@ -151,6 +151,31 @@ class Header:
 WORDS = ["alpha", "beta", "gamma", "delta", "node", "item", "value", "count", "size", "name", "mode", "flag", "index", "weight"]
 
 
+def _cls(h, n):
+    return next(x for x in h.classes if x.name == n)
+
+
+def all_ancestors(h, c):
+    out = set()
+    for b, _, _ in c.bases:
+        out |= {b} | all_ancestors(h, _cls(h, b))
+    return out
+
+
+def hidden_ancestors(h, c):
+    """ancestors whose name (and member types) cannot be used inside c: reached through a private edge below a direct base"""
+    def reach(bn):
+        out = set()
+        for b2, acc2, _ in _cls(h, bn).bases:
+            if acc2 in ("public", "protected"):
+                out |= {b2} | reach(b2)
+        return out
+    ok = set()
+    for b, _, _ in c.bases:
+        ok |= {b} | reach(b)
+    return all_ancestors(h, c) - ok
+
+
 def gen_header(rng, n_classes=3, sections=("__published", "public"), allow_inherit=True, allow_virtual=True,
                allow_defaults=True, allow_static=True, allow_enum=True, allow_fields=True, scalars=None,
                allow_class_params=True, allow_cstr=True, comments=0.3, prefix="K"):
@@ -163,7 +188,16 @@ def gen_header(rng, n_classes=3, sections=("__published", "public"), allow_inher
             c.comment = "class comment %d" % ci
         if allow_inherit and names and rng.random() < 0.6:
             nb = 1 if rng.random() < 0.75 else 2
+            def ancestors(n):
+                bc = next(x for x in h.classes if x.name == n)
+                out = set()
+                for b, _, _ in bc.bases:
+                    out |= {b} | ancestors(b)
+                return out
             for b in rng.sample(names, min(nb, len(names))):
+                # a second base must not share a base-class sub-object with the first (ambiguous base: casts to it are ill-formed)
+                if any((ancestors(b) | {b}) & (ancestors(x) | {x}) for x, _, _ in c.bases):
+                    continue
                 c.bases.append((b, rng.choice(["public", "public", "public", "protected", "private"]), False))
         used = set()
 
@@ -200,7 +234,7 @@ def gen_header(rng, n_classes=3, sections=("__published", "public"), allow_inher
             if r < 0.75 and allow_cstr:
                 return "const char *"
             if allow_class_params and names:
-                t = rng.choice(names + [c.name])
+                t = rng.choice([n for n in names if n not in hidden_ancestors(h, c)] + [c.name])
                 return rng.choice(["%s *", "const %s *", "const %s &", "%s &"]) % t
             return rng.choice(scal)
 
@@ -246,8 +280,18 @@ def gen_header(rng, n_classes=3, sections=("__published", "public"), allow_inher
         if rng.random() < 0.3:
             c.items.append(Method("~" + c.name, None, [], rng.choice(sections), kind="dtor", virtual=allow_virtual and rng.random() < 0.5))
         sigs = set()
+        # names of the methods of all (direct and indirect) bases: a method of the same name is only generated as a faithful overrider below
+        base_names = set()
+        todo = [b for b, _, _ in c.bases]
+        while todo:
+            bn = todo.pop()
+            bc = next(x for x in h.classes if x.name == bn)
+            base_names |= {bm.name for bm in bc.methods()}
+            todo += [b for b, _, _ in bc.bases]
         for k in range(rng.randrange(1, 6)):
             nm = rng.choice(["get_", "set_", "do_", "is_", "compute_"]) + rng.choice(WORDS)
+            if nm in base_names:
+                continue
             ps = params()
             sig = (nm, tuple(p.ty for p in ps))
             # avoid ambiguous overloads: distinct arities per name
@@ -267,7 +311,15 @@ def gen_header(rng, n_classes=3, sections=("__published", "public"), allow_inher
             while todo:
                 bn = todo.pop()
                 bc = next(x for x in h.classes if x.name == bn)
-                cands += [bm for bm in bc.methods() if bm.kind == "method" and (bm.virtual or bm.overrides) and not bm.static]
+                hid = hidden_ancestors(h, c)
+                for bm in bc.methods():
+                    tys = [bm.ret or ""] + [p.ty for p in bm.params]
+                    import re as _re
+                    enum_owners = {h.classes[int(k)].name for t in tys for k in _re.findall(r"Kind(\d+)", t)}
+                    usable = not (enum_owners & hid)      # a base's member enum must be nameable here
+                    usable = usable and not any(hn in t for t in tys for hn in hid)
+                    if bm.kind == "method" and (bm.virtual or bm.overrides) and not bm.static and usable:
+                        cands.append(bm)
                 todo += [b for b, _, _ in bc.bases]
             rng.shuffle(cands)
             for bm in cands[:rng.choice([0, 1, 1, 2])]:
